@@ -115,7 +115,7 @@ func run(c *harness.C, v variant) {
 	hc, hb := dial("honest")
 	hc.Write(netlib.FrameHandshake(hs(hb).Bytes()))
 	hc.Write(netlib.Frame(0, nil, []byte("from-honest")))
-	deadline := time.Now().Add(3 * time.Second)
+	deadline := time.Now().Add(30 * time.Second)
 	honest := false
 	var got []comm.InMsg
 	for time.Now().Before(deadline) {
@@ -137,7 +137,7 @@ func run(c *harness.C, v variant) {
 	rp := map[string]interface{}{"variant": v.name}
 	low := strings.ToLower(propName())
 	if !honest {
-		c.Violation("honest-connection-served", low+"-oldgo-honest-connection-not-served", fmt.Sprintf("after handshake variant %s an honest connection's message did not arrive within 3 s", v.name), rp)
+		c.Violation("honest-connection-served", low+"-oldgo-honest-connection-not-served", fmt.Sprintf("after handshake variant %s an honest connection's message did not arrive within 30 s", v.name), rp)
 	}
 	for _, m := range got {
 		if string(m.Data) != "from-variant" {
